@@ -6,14 +6,15 @@ TRUSTED = [
     "Lean 4.33 kernel; axioms per theorem listed under coverage.axioms (subset of propext, Classical.choice, Quot.sound)",
     "harness/fieldprops.cpp (deck renderer, observation through the public FieldPropsManager API, independent C++ reference interpreter) + lib/vlib.py differ; model driver (compiled Lean)",
     "keyword_info tables (defaults, multiplier/top/global flags, SI factors) are read from the real global_kw_info<T>/UnitSystem at run time and handed to the model",
-    "modelled, not verified: Parser (deck text -> DeckItems), EclipseGrid geometry/ACTNUM bookkeeping, the in-place shifting loop of Fieldprops::compress, Float vs real arithmetic (theorems hold for every scalar type)",
-    "outside the model: PORV/TRAN*/TEMPI/saturation end points, multi-valued (compositional) keywords, SCHEDULE-section multipliers",
+    "modelled, not verified: Parser (deck text -> DeckItems), EclipseGrid geometry and its active map (specified by `rank`; the real Box class is driven directly with arbitrary maps), libm (pow/log/log10 are called on both sides)",
+    "outside the model: PORV/TRAN*/TEMPI/saturation end points, multi-valued (compositional) keywords (finding 1), SCHEDULE-section multipliers, aliases, GRIDOPTS/MULTREGP",
+    "the model mirrors three defects of the code (design.d/C12.md findings 1-3); programs that hit finding 2 are excluded from the all-active comparison unless VERIF_C12_FINDINGS=1",
 ]
 
 
 def run(ctx):
     ctx.assumptions += [
-        "decks are METRIC, regular 1x1x1 m cells, no MINPV/GRIDOPTS/MULTREGP/numerical aquifers",
+        "decks are METRIC, regular 1x1x1 m cells (PORV zero test modelled with unit volume), no MINPV/GRIDOPTS/MULTREGP/numerical aquifers; ACTNUM values 0/1",
         "keyword set restricted to arrays without keyword-specific post-processing (see design.d/C12.md)",
         "every exception is fatal for EclipseState, so a rejection anywhere rejects the deck",
     ]
